@@ -123,6 +123,11 @@ a = v.w
 
 const srcNoEOL = "b = 2\n# lead a\na = 1"
 
+// files without a final newline whose last token is a comment
+const srcNoEOLInline = "b = 2\na = 1 /* c */"
+const srcNoEOLLine = "b = 2\na = 1 # c"
+const srcNoEOLOwn = "a = 1\nblk {\n  b = 2\n}\n// tail"
+
 var initialFiles = []initialFile{
 	{name: "empty", src: "", build: hclwrite.NewEmptyFile},
 	{name: "generated", src: srcGenerated, build: func() *hclwrite.File {
@@ -141,6 +146,9 @@ var initialFiles = []initialFile{
 	{name: "comments", src: srcComments, build: parsed(srcComments)},
 	{name: "comments2", src: srcComments2, build: parsed(srcComments2)},
 	{name: "noeol", src: srcNoEOL, build: parsed(srcNoEOL)},
+	{name: "noeol-inline-comment", src: srcNoEOLInline, build: parsed(srcNoEOLInline)},
+	{name: "noeol-line-comment", src: srcNoEOLLine, build: parsed(srcNoEOLLine)},
+	{name: "noeol-own-comment", src: srcNoEOLOwn, build: parsed(srcNoEOLOwn)},
 }
 
 // ---------------------------------------------------------------------------
